@@ -215,14 +215,15 @@ def C06(c):
     c.corr("all-output-types", cs, combos_of(["list"], OUTTYPES), judge=judge)
     c.corr("all-output-types-dict", [e for e in cs if e["alg"] != "bin_completion"][: c.n(300, 3000)], combos_of(["dict_str"], OUTTYPES), judge=judge)
     # the statement itself, evaluated on the implementation: every sums-only output equals the function of the full output
+    from engine import impl_map
+    tasks = [(case, "list", ot, list(case["vals"])) for case in cs for ot in [PT] + SUMS_ONLY]
+    res = iter(impl_map(tasks))
     for case in cs:
-        alg = ALGS[case["alg"]]
-        names = names_for("list", case["vals"], rng)
-        full = alg.call_impl(case, "list", PT, names)
+        full = next(res)
+        rest = [next(res) for _ in SUMS_ONLY]
         if J._is_err(full) or J._is_none(full):
             continue
-        for ot in SUMS_ONLY:
-            got = alg.call_impl(case, "list", ot, names)
+        for ot, got in zip(SUMS_ONLY, rest):
             want = sums_view(ot, full["sums"])
             c.check_direct(case["alg"], dict(case["p"], vals=case["vals"], alg=case["alg"], outtype=ot), "output-mismatch",
                            got == want, got, f"{ot} computed from the full partition output: {want}")
@@ -249,12 +250,14 @@ def C07(c):
     cs = [e for e in cs if not any(v > e["p"].get("B", 10 ** 9) for v in e["vals"])]
     c.corr("all-formats", cs, combos_of(FORMATS, [PT]), judge=judge)
     # the statement itself on the implementation: same multiset of sums in every format
+    from engine import impl_map
+    tasks = [(case, fmt, "SortedSums", names_for(fmt, case["vals"], random.Random(sha([case["vals"], fmt]))))
+             for case in cs for fmt in FORMATS]
+    res = iter(impl_map(tasks))
     for case in cs:
-        alg = ALGS[case["alg"]]
         ref = None
         for fmt in FORMATS:
-            names = names_for(fmt, case["vals"], random.Random(sha([case["vals"], fmt])))
-            got = alg.call_impl(case, fmt, "SortedSums", names)
+            got = next(res)
             if fmt == "list":
                 ref = got
                 continue
